@@ -1,6 +1,7 @@
 import ZnVerif.Properties.C03
 import ZnVerif.Properties.C03Stmt
 import ZnVerif.Properties.C03StmtExample
+import ZnVerif.Properties.C03Chars
 open ZnVerif.Properties.C03
 #print axioms returned_tree_complete
 #print axioms production_complete
@@ -32,3 +33,11 @@ open ZnVerif.Properties.C03
 #print axioms Example2.inOrder
 #print axioms Example2.evaluated
 #print axioms Example2.parsed
+-- character level: lexer model + parser model on a canonical text rendering (Properties/C03Chars.lean; more in Audit/C03Chars.lean)
+#print axioms lex_rendered
+#print axioms rendered_in_order
+#print axioms parse_source_is_laid_out
+#print axioms parse_render_canonical
+#print axioms canonical_text_unambiguous
+#print axioms CharsExample.exRts_wf
+#print axioms CharsExample.exProgram_rendered
